@@ -100,8 +100,9 @@ class _Parts:
             self.conns["feedback"] = mk("dense", 2, 3)
             self.neurons["feedfwd"] = fac.make_neuron(desc["neuron"], (3,), dt, B)
             self.neurons["feedback"] = fac.make_neuron(desc["neuron2"], (2,), dt, B)
-        for c in self.conns.values():
-            fac.randomize(c, g, wscale=1.5, delay_steps=desc["delay"], dt=dt)
+        for k, c in self.conns.items():
+            # recurrent layers: strong lateral / feedback weights so that feedback spikes occur and matter
+            fac.randomize(c, g, wscale=(5.0 if k in ("lateral", "feedback") else 1.5), delay_steps=desc["delay"], dt=dt)
         for n in list(self.conns.values()) + list(self.neurons.values()):
             n.train()
 
